@@ -123,6 +123,7 @@ func robustUniverse(tier string) []*V {
 		s(""), s("abc"), s("héllo wörld 😀 x"), s("10"),
 		VAnys(), VAnys(VNil(), i(1)), VAnys(s("b"), s("a"), i(3)),
 		VStrMap(SKV("a", i(1)), SKV("b", i(2))), VMap(TInt(0), TAny, KV(i(1), s("x"))), VRange(3, 1),
+		VAnys(VStrMap(SKV("name", s("b")), SKV("abc", i(1))), VStrMap(SKV("name", s("a")))), // objects, one lacking a key
 	}
 	if tier != "thorough" {
 		return u
@@ -132,7 +133,7 @@ func robustUniverse(tier string) []*V {
 		VFlt(1, 0.5), VFlt(1, -2.5), VFlt(1, 1e15), VFlt(0, 1.5),
 		s("a"), s(" padded "), s("a,b,c"), s("<b>&amp;</b>"), s("%zz"), s("1.5"), s(long), s("\xff\xfe"),
 		VAnys(i(1), i(2), i(2)), VAnys(VAnys(i(1)), VAnys(i(2))), VSlice(TStr, s("b"), s("a")),
-		VAnys(VStrMap(SKV("name", s("b"))), VStrMap(SKV("name", s("a")))), VAnys(VMap(TInt(0), TAny, KV(i(1), s("x")))),
+		VAnys(VMap(TInt(0), TAny, KV(i(1), s("x")))),
 		VMapSlice(SKV("a", i(1)), SKV("b", i(2))), VDrop(i(3)), VDrop(VAnys(i(2), i(1))), VPtr(i(1)), VNilPtr(),
 		VStruct(Field{"a", i(1)}, Field{"b", s("x")}), VBytes("ab"), VTime(1577934245), VRange(1, 3),
 		VKeyed(Field{"k1", i(1)}, Field{"k2", i(2)}),
@@ -293,7 +294,11 @@ func (rb *robust) exec(cfg engineCfg, src string, env map[string]*V, caseLine, c
 			deaths++
 		}
 		slow := rb.slowdown()
-		for i := 0; i < 2; i++ {
+		retries := 2
+		if status != "" {
+			retries = 1 // a case that had to be killed (or killed its process) is retried once: each try costs seconds
+		}
+		for i := 0; i < retries; i++ {
 			o2, status2, info2 := rb.runOnce(cfg, src, env, caseLine, hard)
 			if status2 == "died" {
 				deaths++
@@ -314,14 +319,14 @@ func (rb *robust) exec(cfg engineCfg, src string, env map[string]*V, caseLine, c
 			}
 		}
 		switch {
-		case deaths == 3:
-			rb.violate("process-death", firstLine(lastInfo), caseLine, "the process running the case died three times: "+lastInfo+"   source: "+short(fmt.Sprintf("%q", src), 300))
+		case deaths >= 2 && deaths == retries+1:
+			rb.violate("process-death", firstLine(lastInfo), caseLine, "the process running the case died every time: "+lastInfo+"   source: "+short(fmt.Sprintf("%q", src), 300))
 			o.Res = "died"
 		case deaths > 0:
 			r.Count("unjudged:died-not-repeatable")
 		case float64(least) > float64(limit)*slow:
-			rb.violate("time", class, caseLine, fmt.Sprintf("took at least %v of CPU time in each of 3 runs (a case that does not return is killed after %v); nominal budget %v for %d source bytes, 50x = %v, machine slowdown factor %.1f   source: %s",
-				least, hard, budget, len(src), limit, slow, short(fmt.Sprintf("%q", src), 300)))
+			rb.violate("time", class, caseLine, fmt.Sprintf("took at least %v of CPU time in each of %d runs (a case that does not return is killed after %v); nominal budget %v for %d source bytes, 50x = %v, machine slowdown factor %.1f   source: %s",
+				least, retries+1, hard, budget, len(src), limit, slow, short(fmt.Sprintf("%q", src), 300)))
 		case least > limit:
 			r.Count("time-overshoot-explained-by-load")
 		}
@@ -622,7 +627,7 @@ func robustStream(r *Run) {
 						env[argNames[k]] = U[idx[k]]
 					}
 					run(plain, src, env, "matrix-filter")
-					r.Count("filter=" + name)
+					r.Count("matrix:filter=" + name)
 					// next tuple
 					k := nargs - 1
 					for ; k >= 0; k-- {
@@ -648,7 +653,7 @@ func robustStream(r *Run) {
 		for _, a := range U {
 			for _, b := range U {
 				run(plain, "{% if a "+op+" b %}T{% else %}F{% endif %}", map[string]*V{"a": a, "b": b}, "matrix-op")
-				r.Count("op=" + op)
+				r.Count("matrix:op=" + op)
 			}
 		}
 	}
@@ -697,7 +702,13 @@ func robustStream(r *Run) {
 		"{% for i in R offset: 9999999 limit: 2 %}{{ i }},{% endfor %}", "{% tablerow i in R limit: 2 cols: 2 %}{{ i }}{% endtablerow %}",
 		"{% assign r = R %}{{ r.first }}{{ r[0] }}{{ r.size }}", "{% if R contains 3 %}T{% else %}F{% endif %}", "{% if R == R %}T{% else %}F{% endif %}"}
 	for _, rg := range bRanges {
-		for _, tl := range bTails {
+		for ti, tl := range bTails {
+			// materialising ten million items costs about a second and a gigabyte: the quick tier
+			// does it for two ranges and three filters only
+			heavy := strings.Contains(rg, "999999") || strings.Contains(rg, "1000000")
+			if heavy && !thorough && ti < 7 && !((rg == "(1..10000000)" || rg == "(1..10000001)") && (ti == 0 || ti == 2 || ti == 3)) {
+				continue
+			}
 			run(plain, strings.ReplaceAll(tl, "R", rg), map[string]*V{}, "range-boundary")
 		}
 	}
